@@ -1,7 +1,7 @@
 #!/bin/bash
 # usage: wave2test.sh PROP [flavours] — run every /tmp/wt2/PROP/out/*/patch.diff against PROP's quick check on a scratch copy
 P=$1; FL=${2:-prod-avx2}
-for d in /tmp/wt2/$P/out/*/; do
+for d in ${SEEDBASE:-/tmp/wt2}/$P/out/*/; do
   [ -f $d/patch.diff ] || continue
   if [ "$FL" = all ]; then ./check selftest patch $P $d/patch.diff 14 2>&1 | grep MUTANT | cut -c1-300
   else ./check selftest patch $P $d/patch.diff 14 $FL 2>&1 | grep MUTANT | cut -c1-300; fi
